@@ -453,13 +453,17 @@ def send_tx(
             msgs = [
                 bip143.witness_message(
                     txins,
-                    utxo["vout"],
+                    txin_index,
                     int(round(utxo["amount"] * 1e8)),
                     scriptcode,
                     txouts,
+                    version=version,
+                    locktime=locktime,
                     sighash_flag=sighash_flag,
                 )
-                for utxo in sender_txoutset["unspents"]
+                for txin_index, utxo in enumerate(
+                    sender_txoutset["unspents"][: len(txins)]
+                )
             ]
             signatures = [
                 [
